@@ -35,7 +35,7 @@ Definition opt_eqb {A} (f : A -> A -> bool) (a b : option A) : bool :=
   | _, _ => false
   end.
 
-(* ---- __eq__ (same-type operands; cross-type and None operands are compared by the harness) ---- *)
+(* ---- __eq__ of same-kind operands; gval_eqb below covers cross-type and None operands ---- *)
 (* Size.__eq__: other and type(self) == type(other) and value == and unit ==   (a Size is always truthy) *)
 Definition size_eqb (a b : size) : bool := Qeq_bool (s_val a) (s_val b) && unit_eqb (s_unit a) (s_unit b).
 Definition point_eqb (a b : point) : bool := size_eqb (p_x a) (p_x b) && size_eqb (p_y a) (p_y b).
@@ -98,7 +98,7 @@ Section Hash.
 End Hash.
 
 (* ---- Size.from_string --------------------------------------------------------------- *)
-(* ^(((?P<value>\d+(\.\d+)?)(?P<unit>px|em|%|c|pt))|0)$  with re.search *)
+(* ^(((?P<value>\d+(\.\d+)?)(?P<unit>px|em|%|c|pt))|0)\Z  with re.search, re.ASCII *)
 Definition unit_of_suffix (s : str) : option unit_ :=
   (* the alternation is tried in order px, em, %, c, pt and must be followed by $ *)
   if str_eqb s (lit "px") then Some PX
@@ -107,10 +107,6 @@ Definition unit_of_suffix (s : str) : option unit_ :=
   else if str_eqb s (lit "c") then Some CELL
   else if str_eqb s (lit "pt") then Some PT
   else None.
-
-(* `$` also matches before one final newline *)
-Definition chop_final_newline (s : str) : str :=
-  match rev s with 10 :: r => rev r | _ => s end.
 
 Definition pow10 (n : nat) : Z := Z.pow 10 (Z.of_nat n).
 
@@ -154,7 +150,9 @@ Definition size_parse_core (s : str) : result size :=
     end
   end.
 
-Definition size_from_string (s0 : str) : result size := size_parse_core (chop_final_newline s0).
+(* after `fix: Size.from_string accepted a size followed by a newline` (\Z instead of $) and `fix: ... non-ASCII decimal
+   digits` (re.ASCII) the function is exactly the pattern *)
+Definition size_from_string (s0 : str) : result size := size_parse_core s0.
 
 (* ---- Size.__str__ --------------------------------------------------------------------- *)
 Definition unit_str (u : unit_) : str :=
